@@ -157,6 +157,7 @@ type Engine struct {
 	pathReach     []string
 	crashTree     func(model map[string]uint64) []FSEntry
 	lastPanicWhere string
+	pendingTimers  []*Chan
 }
 
 type pathAbort struct{}
@@ -625,6 +626,7 @@ func (e *Engine) resetPath() {
 	e.mapOrderPerm = false
 	e.afterCrash = nil
 	e.crashTree = nil
+	e.pendingTimers = nil
 	e.pathReach = e.pathReach[:0]
 }
 
